@@ -20,6 +20,8 @@ TITLES = [
     ("C03", r"reopen-fails", "CREATE VIEW consumes a table id that is not logged in the manifest: a table created after a view is replayed under a different id and the database no longer opens", "src/storage/secondary/manifest.rs (replay assigns ids by catalog order); src/executor/create_view.rs"),
     ("C11", r"implementation-fails:nl@join:(right|full)", "the nested-loop join does not implement RIGHT / FULL OUTER joins (`todo!()`): it panics where hash and merge join answer", "src/executor/nested_loop_join.rs:26"),
     ("C11", r"implementations-disagree:hash-vs-simple@agg", "simple aggregation returns SUM = 0 for inputs whose values are all NULL, hash/sort aggregation return NULL", "src/executor/simple_agg.rs / src/array/ops.rs sum()"),
+    ("C12", r"setup_err", "(thorough layouts) with record_first_key = false a DELETE .. WHERE k = c on a primary-key table panics in start_rowid (see C13)", "src/storage/secondary/rowset/disk_rowset.rs start_rowid"),
+    ("C07", r"op_err", "(thorough layouts) with record_first_key = false a DELETE .. WHERE k = c / k < c on a primary-key table panics in start_rowid (see C13)", "src/storage/secondary/rowset/disk_rowset.rs start_rowid"),
     ("C13", r"nofirstkey", "with record_first_key = false every pushed-down key range panics in start_rowid (empty first_key decoded as i32); conflicting two-sided ranges return all rows", "src/storage/secondary/rowset/disk_rowset.rs start_rowid; src/planner/rules/range.rs"),
     ("C13", r"@pos0:int$", "an empty two-sided range (k > c and k < c) pushed into the scan returns every row", "src/storage/secondary/rowset/rowset_iterator.rs (start/end positions of an empty range); src/planner/rules/range.rs"),
     ("C13", r"@pos0:(bigint|smallint)", "range pushdown on a BIGINT/SMALLINT key compares the INT literal with the key by DataValue variant order (and start_rowid only supports Int32): missing and extra rows", "src/storage/secondary/rowset/rowset_iterator.rs; disk_rowset.rs start_rowid; src/planner/rules/range.rs (no type/position check)"),
@@ -96,13 +98,15 @@ def main():
         rel = f"known/{fn}"
         if rel in have:
             continue
-        prop, sig = fn[:-4].split(".", 1)
+        prop, sig = (fn[:-7] if fn.endswith(".txt.gz") else fn[:-4]).split(".", 1)
         title, where = f"failing cases with signature {sig}", "see witness"
         for p, rx, t, w in TITLES:
             if p == prop and re.search(rx, sig):
                 title, where = t, w
                 break
-        first = next((l.strip() for l in open(os.path.join(VERIF, "known", fn)) if not l.startswith("#")), "")
+        import gzip
+        fp = os.path.join(VERIF, "known", fn)
+        first = next((l.strip() for l in (gzip.open(fp, "rt") if fn.endswith(".gz") else open(fp)) if not l.startswith("#")), "")
         kj["findings"].append({"id": f"KF-{prop}-{sig}", "property": prop, "title": title, "where": where,
                                "signature": sig, "witness_case": first, "cases_file": rel})
     kj["findings"].sort(key=lambda f: f["id"])
